@@ -225,6 +225,20 @@ func c04(repo string, out *fg.Out) error {
 	}
 	writeAtomic := strings.Contains(wBody, "rollback") || strings.Contains(wBody, "validateAll")
 
+	// both columnar write paths refuse a batch that has a column with the empty name
+	writeRejectsEmpty := true
+	for _, nm := range []string{"writeColumnarInternal", "writeTypedColumnarRaw"} {
+		_, b, e := fn(f, "ArrowBuffer", nm)
+		if e != nil {
+			return e
+		}
+		i := strings.Index(b, `typedColumns.Data[""]`)
+		j := strings.Index(b, "shard.mu.Lock()")
+		if i < 0 || j < 0 || i > j {
+			writeRejectsEmpty = false
+		}
+	}
+
 	// ---- 7. WAL envelope
 	wf, err := fg.ParseFile(repo, "internal/wal/wal.go")
 	if err != nil {
@@ -384,6 +398,7 @@ func c04(repo string, out *fg.Out) error {
 	fmt.Fprintf(w, "/-- getSchema / inferSchema leave `_`-prefixed columns out of the Parquet schema -/\ndef schemaSkipsUnderscore : Bool := %s\n", b(gsSkip))
 	fmt.Fprintf(w, "/-- number of single-value (panicking) type assertions `merged[name].([]T)` in mergeBatches' copy phase -/\ndef mergeUncheckedAsserts : Nat := %d\n", unchecked)
 	fmt.Fprintf(w, "def mergeRecovers : Bool := %s\n", b(mergeRecovers))
+	fmt.Fprintf(w, "/-- writeColumnarInternal AND writeTypedColumnarRaw return an error for a batch with a column named \"\" (before the buffer is touched) -/\ndef writeRejectsEmptyName : Bool := %s\n", b(writeRejectsEmpty))
 	fmt.Fprintf(w, "/-- applyPermutation bounds-checks `col[idx]` -/\ndef permBoundsChecked : Bool := %s\n", b(permChecked))
 	fmt.Fprintf(w, "/-- sortTypedColumnBatchByKeys bounds-checks `valid[idx]` -/\ndef validPermBoundsChecked : Bool := %s\n", b(validPermChecked))
 	fmt.Fprintf(w, "/-- sliceColumnsByIndices bounds-checks (`if idx < colLen`) -/\ndef sliceBoundsChecked : Bool := %s\n", b(sliceChecked))
@@ -404,6 +419,7 @@ func c04(repo string, out *fg.Out) error {
 	out.JSON["schema_guards_empty"] = gsGuard && isGuard
 	out.JSON["schema_skips_underscore"] = gsSkip
 	out.JSON["merge_unchecked_asserts"] = unchecked
+	out.JSON["write_rejects_empty_name"] = writeRejectsEmpty
 	out.JSON["perm_bounds_checked"] = permChecked
 	out.JSON["row_time_guard"] = rowTimeGuard
 	out.JSON["flush_goroutines_recover"] = flushRecover
